@@ -339,6 +339,11 @@ macro_rules! lazy_harness {
 }
 lazy_harness!(c03_lazy_or, 0);
 lazy_harness!(c03_lazy_and, 1);
+// NOTE (measured): even the minimal template `c ? 5 : 7` (values only) was at 8 GB after 8 min:
+// eval() continues with `if cond { then_ast } else { else_ast }`, i.e. a symbolically selected
+// sub-slice, and the recursive call then explores every Ast variant down to the unwinding bound.
+// The laziness AND the condition test of ?: are outside the claim (seed C03-r2-conditional-tests-
+// positive is missed).
 // The ?: templates (2-4) are kept for reference but not registered as harnesses: with the
 // Conditional node CBMC needed > 8 GB and gave no answer in 11 min (the nested one ran out of
 // memory at 16 GB), so the laziness of ?: is outside the claim.
